@@ -2,9 +2,19 @@
   Csvq.Model.UnaryPrint — lib/parser/ast.go: `UnaryArithmetic.String()`, `UnaryLogic.String()` (operator `!`)
   and `Parentheses.String()` over operands whose text is given (core Lean only).
 
-      func (e UnaryArithmetic) String() string { return e.Operator.String() + e.Operand.String() }
-      func (e UnaryLogic) String() string      { … return e.Operator.String() + e.Operand.String() }   // for "!"
-      func (p Parentheses) String() string     { return "(" + p.Expr.String() + ")" }
+      func (e UnaryArithmetic) String() string {
+          operand := e.Operand.String()
+          if e.Operator.Token == '-' && strings.HasPrefix(operand, "-") { return e.Operator.String() + " " + operand }
+          return e.Operator.String() + operand
+      }
+      func (e UnaryLogic) String() string {            // the "!" form; the NOT form joins with a space
+          operand := e.Operand.String()
+          if strings.HasPrefix(operand, "!") { return e.Operator.String() + " " + operand }
+          return e.Operator.String() + operand
+      }
+      func (p Parentheses) String() string { return "(" + p.Expr.String() + ")" }
+
+  `printOld` is the printer before the repairs c4eeafc / 98baed3 (operator immediately followed by the operand).
 -/
 namespace Csvq.UPrint
 
@@ -16,26 +26,40 @@ inductive UExpr
   | paren (e : UExpr)           -- Parentheses
   deriving Repr
 
-/-- the `String()` methods: operator immediately followed by the operand's text -/
+/-- `strings.HasPrefix(s, string(c))` -/
+def startsWith (c : Char) : List Char → Bool
+  | [] => false
+  | x :: _ => x = c
+
+/-- the `String()` methods of the current code -/
 def UExpr.print : UExpr → List Char
   | .atom t => t
-  | .neg e => '-' :: e.print
+  | .neg e => if startsWith '-' e.print then '-' :: ' ' :: e.print else '-' :: e.print
   | .pos e => '+' :: e.print
-  | .bang e => '!' :: e.print
+  | .bang e => if startsWith '!' e.print then '!' :: ' ' :: e.print else '!' :: e.print
   | .paren e => '(' :: (e.print ++ [')'])
 
-/-- a printer that separates a unary operator from an operand that begins with an operator rune (the repair) -/
-def UExpr.printSep : UExpr → List Char
+/-- the `String()` methods before c4eeafc / 98baed3: operator immediately followed by the operand's text -/
+def UExpr.printOld : UExpr → List Char
   | .atom t => t
-  | .neg e => '-' :: ' ' :: e.printSep
-  | .pos e => '+' :: ' ' :: e.printSep
-  | .bang e => '!' :: ' ' :: e.printSep
-  | .paren e => '(' :: (e.printSep ++ [')'])
+  | .neg e => '-' :: e.printOld
+  | .pos e => '+' :: e.printOld
+  | .bang e => '!' :: e.printOld
+  | .paren e => '(' :: (e.printOld ++ [')'])
 
 /-- the text contains `--` (line comment) or `/*` (block comment) -/
 def hasCommentOpener : List Char → Bool
   | [] => false
   | [_] => false
   | a :: b :: tl => (a = '-' && b = '-') || (a = '/' && b = '*') || hasCommentOpener (b :: tl)
+
+/-- scanner.go `isOperatorRune` -/
+def opRune (c : Char) : Bool := c = '=' || c = '>' || c = '<' || c = '!' || c = '|' || c = ':'
+
+/-- the text contains a `!` immediately followed by an operator rune: the scanner would read both as ONE operator token -/
+def hasBangFusion : List Char → Bool
+  | [] => false
+  | [_] => false
+  | a :: b :: tl => (a = '!' && opRune b) || hasBangFusion (b :: tl)
 
 end Csvq.UPrint
